@@ -24,10 +24,13 @@ TECHNIQUE = "runtime monitor: interface-level write/response log on the virtual 
 LEVEL_TEXT = (
     "Generated update/read/initialize histories (quick 450, thorough 16 x 6000; 4..22 events) with gaps drawn around the cooldown "
     "(0, 2^-6, 1/4, 1/2, cooldown-2^-6, cooldown, cooldown+2^-6, beyond, random) for cooldown in {0,.25,.5,1,2,4} x periodic_send in {0,.75,1.5,3,7} "
-    "x value types x respond_to_read. Exploration: histories are sampled."
+    "x value types x respond_to_read; 35% of the histories run against a slow interface (send_cemi / L_Data.con take 0..2.5 virtual s) so that reads meet "
+    "writes that are still queued or in flight. Exploration: histories are sampled."
 )
 LEVEL_NOTE = (
-    "Trusted: virtual loop, fake interface confirming at once (so last_payload follows the bus), connection always up, no rate limit. "
+    "Trusted: virtual loop, fake interface (confirming at once, so last_payload follows the bus; in the slow histories only the read rule - judged where "
+    "the answer is QUEUED, against the last value passed to set()/initialize_value before the read was processed - is judged; the final "
+    "latest-on-bus state is recorded only), connection always up, no rate limit. "
     "Judged: (1) GroupValueWrite telegrams not attributed to a periodic send are >= cooldown apart (1e-9 s slack); (2) at last_update + cooldown "
     "(+2^-20 s slack) the last value telegram on the bus carries the latest set payload; initialize_value counts as 'as if sent' (its docstring); "
     "(3) every read (respond_to_read=True, a value was set/initialised) is answered in the same instant and every answer carries the latest set payload; "
@@ -112,8 +115,16 @@ def gen(rng: random.Random, index: int) -> dict:
         else:
             ev = {"t": t, "op": "set", "value": rng.choice(pool), "skip": True}
         events.append(ev)
-    return {"index": index, "value_type": vt, "cooldown": cooldown, "periodic": periodic,
+    spec = {"index": index, "value_type": vt, "cooldown": cooldown, "periodic": periodic,
             "respond_to_read": rng.random() < 0.85, "events": events, "tail": 3 * cd + (periodic or 0) + 1}
+    if rng.random() < 0.35:
+        # slow interface: send_cemi / L_Data.con take up to 2.5 s, so reads meet writes that are still queued or in flight
+        spec["slow"] = {"seed": rng.randint(0, 10**6)}
+        spec["periodic"] = rng.choice((0, 0, 3.0, 7.0))
+        spec["respond_to_read"] = True
+        spec["events"] = [e for e in events if e["op"] != "foreign"]
+        spec["tail"] = spec["tail"] + 10
+    return spec
 
 
 def run_case(ctx, spec: dict) -> str | None:
@@ -302,9 +313,94 @@ def run_case(ctx, spec: dict) -> str | None:
         for ex in h.loop.exceptions:
             ctx.count(f"diagnostic_loop_exception_{ex['type']}")
 
+    async def slow_scenario() -> None:
+        """Reads against writes that are still queued / in flight: only the read rule and the final state are judged."""
+        from xknx.telegram import TelegramDirection
+        from xknx.telegram.apci import GroupValueResponse
+
+        drng = random.Random(spec["slow"]["seed"])
+
+        def delays() -> tuple[float, float]:
+            d = drng.choice((0.0, 0.0, G, 0.25, 1.0, 2.5))
+            return (d, 0.0) if drng.random() < 0.5 else (0.0, d)
+
+        h.iface.delay_fn = delays
+        await h.start()
+        t0 = h.now()
+        dev = ExposeSensor(h.xknx, "es", group_address=GA, value_type=spec["value_type"], cooldown=cooldown,
+                           periodic_send=spec["periodic"], respond_to_read=True)
+        h.xknx.devices.async_add(dev)
+        dev.async_start_tasks()
+        latest = None
+        latest_from_set = False
+        for e in events:
+            await h.sleep_until(t0 + e["t"])
+            op = e["op"]
+            ctx.count("slow_op_" + op)
+            t = e["t"]
+            trace.append((op, t, e.get("value"), e.get("skip")))
+            if op == "set":
+                payload = payload_repr(dev.sensor_value.to_knx(e["value"]))
+                await dev.set(e["value"], skip_unchanged=e["skip"])
+                if not (e["skip"] and payload == latest):
+                    latest, latest_from_set = payload, True
+                await h.soft_settle()
+            elif op == "init":
+                dev.initialize_value(e["value"])
+                latest = None if e["value"] is None else payload_repr(dev.sensor_value.to_knx(e["value"]))
+                latest_from_set = False
+                await h.soft_settle()
+            elif op == "read":
+                in_flight = h.xknx.telegrams.qsize() + h.xknx.telegram_queue.outgoing_queue.qsize()
+                unconfirmed = len(h.queue_log.log) - sum(1 for _t, tg in h.queue_log.log if tg.direction is TelegramDirection.INCOMING)
+                before = len(h.queue_log.log)
+                h.incoming_read(GA)
+                await h.soft_settle()
+                answers = [tg for _t, tg in h.queue_log.log[before:]
+                           if tg.direction is TelegramDirection.OUTGOING and isinstance(tg.payload, GroupValueResponse)
+                           and tg.destination_address == ga]
+                ctx.ev()
+                if latest is None:
+                    ctx.count("read_not_judged_no_value_yet")
+                    continue
+                ctx.count("reads_judged")
+                ctx.count("slow_reads_judged")
+                if in_flight or unconfirmed > len(h.iface.sent) or not h.xknx.cemi_handler._l_data_confirmation_event.is_set():
+                    ctx.count("slow_reads_while_a_telegram_is_queued_or_in_flight")
+                kind_cd = "without-cooldown" if not cooldown else "with-cooldown"
+                if not answers:
+                    viol(f"read-not-answered-while-write-pending-{kind_cd}",
+                         f"read at +{t} got no GroupValueResponse although {latest} was set (interface slow)", {"at": t})
+                    return
+                wrong = [payload_repr(tg.payload.value) for tg in answers if payload_repr(tg.payload.value) != latest]
+                if wrong:
+                    viol(f"read-answered-with-stale-value-while-write-pending-{kind_cd}",
+                         f"read at +{t} answered with {wrong[0]} but the most recently set payload is {latest} (interface slow)", {"at": t})
+                    return
+        await h.xknx.telegrams.join()
+        await h.sleep_until(h.now() + spec["tail"])
+        await h.xknx.telegrams.join()
+        await h.settle()
+        if latest is not None and latest_from_set:
+            ctx.ev()
+            ctx.count("final_probes")
+            ctx.count("slow_final_probes")
+            last = [s for s in h.iface.sent if s.dst == ga and s.kind in ("write", "response")]
+            bus = payload_repr(last[-1].value) if last else None
+            if bus != latest:
+                # Recorded, not judged: with telegrams in flight longer than the cooldown, _cooldown_send compares the pending payload
+                # with the last PROCESSED one and may stand down although older queued telegrams still reach the bus afterwards.
+                # The statement's timing rule speaks of the value last on the bus, which a slow interface makes ambiguous.
+                ctx.count("slow_final_latest_not_on_bus_recorded_only")
+                diag = ctx.extra.setdefault("slow_final_examples", [])
+                if len(diag) < 2:
+                    diag.append({"spec_index": spec["index"], "bus": bus, "latest": latest})
+        for ex in h.swallowed_exceptions():
+            ctx.count(f"diagnostic_swallowed_{ex['exc_type']}")
+
     try:
         with watch_periodic(periodic_log):
-            h.run(scenario(), max_vtime=1e4)
+            h.run(slow_scenario() if spec.get("slow") else scenario(), max_vtime=1e4)
     finally:
         h.close()
     if not found:
@@ -321,8 +417,9 @@ def run(ctx):
         "event-kind string, gap ratios)."
     )
     ctx.require("deadline_probes", "reads_judged", "spacing_checks", "spacing_at_the_limit", "writes_periodic", "writes_update_caused",
-                "set_skippable_same_payload", "set_skip_flag_but_payload_differs", "op_init", "final_probes")
-    n = ctx.scale(450, 6000 * 16)
+                "set_skippable_same_payload", "set_skip_flag_but_payload_differs", "op_init", "final_probes", "slow_reads_judged",
+                "slow_reads_while_a_telegram_is_queued_or_in_flight", "slow_final_probes")
+    n = ctx.scale(600, 6000 * 16)
     for i in range(n):
         if not ctx.mine(i):
             continue
